@@ -233,6 +233,10 @@ impl SimDirectory {
     pub fn log_len(&self) -> usize {
         self.inner.log.lock().unwrap().len()
     }
+    /// number of storage operations issued so far by each logical thread
+    pub fn thread_op_counts(&self) -> BTreeMap<String, usize> {
+        self.inner.ctl.lock().unwrap().per_thread.clone()
+    }
     pub fn op_count(&self) -> usize {
         self.inner.ctl.lock().unwrap().op_count
     }
